@@ -48,8 +48,6 @@ var (
 	prop     = flag.String("prop", "C02", "property id written into the report")
 )
 
-func isAlpha(c byte) bool { return 'a' <= c && c <= 'z' || 'A' <= c && c <= 'Z' }
-func isDigit(c byte) bool { return '0' <= c && c <= '9' }
 
 const (
 	rdfNS   = "http://www.w3.org/1999/02/22-rdf-syntax-ns#"
@@ -633,6 +631,16 @@ func baseStable(b string) bool {
 
 // run executes one case on the implementation: oracle, then queues the model comparison(s).
 func (g *gen) run(c *caseT) {
+	// the property quantifies over well-formed terms: every IRI must be an RFC 3987 IRI
+	wf := c.cfg.base == nil || validIRIRef(*c.cfg.base, true)
+	for _, m := range c.cfg.prefixes {
+		wf = wf && validIRIRef(m.Expanded, true)
+	}
+	c.eachIRI(func(v string, _ bool) { wf = wf && validIRIRef(v, true) })
+	if !wf {
+		g.rep.Count("skip:ill-formed-iri-generated")
+		return
+	}
 	er := c.encode(g.r)
 	kind := string(c.kind)
 	g.rep.Count("op:enc-" + kind)
